@@ -54,6 +54,31 @@ DEF_STRINGS = ["(Definition/Abc, (Red))", "(Definition/Val/#, (Label/#))", "(Def
                "(Definition/Nest, (Def/Abc, (Definition/Inner)))"]
 
 
+# fragments a reader would call "the offending text" for some atoms: (atom, code, allowed (start, end) relative to the atom)
+def _rel(atom, frag, last=False):
+    k = atom.rfind(frag) if last else atom.index(frag)
+    return (k, k + len(frag))
+
+
+EXPECT = [
+    ("Redx", "TAG_INVALID", [_rel("Redx", "Redx")]),
+    ("Red//Blue", "TAG_INVALID", [_rel("Red//Blue", "//")]),
+    ("Item/Object/Blue", "TAG_EXTENSION_INVALID", [_rel("Item/Object/Blue", "Blue")]),
+    ("Sensory-event/Visual-presentation", "TAG_EXTENSION_INVALID", [_rel("Sensory-event/Visual-presentation", "Visual-presentation")]),
+    ("Label/a$b", "CHARACTER_INVALID", [_rel("Label/a$b", "$")]),
+    ("Label/é x", "CHARACTER_INVALID", [_rel("Label/é x", " ")]),
+    ("Label/#", "PLACEHOLDER_INVALID", [_rel("Label/#", "#")]),
+    ("Red/ Blue", "TAG_INVALID", [_rel("Red/ Blue", "/ "), _rel("Red/ Blue", " ")]),
+    ("Red/Blue/Green", "TAG_EXTENSION_INVALID", [_rel("Red/Blue/Green", "Blue")]),
+    ("Röd", "TAG_INVALID", [_rel("Röd", "Röd")]),
+    ("Blue/Apple/", "TAG_INVALID", [_rel("Blue/Apple/", "/", last=True)]),
+    ("/Red", "TAG_INVALID", [_rel("/Red", "/")]),
+    ("Item/Red", "TAG_EXTENSION_INVALID", [_rel("Item/Red", "Red")]),
+    ("Blue/Apple", "TAG_EXTENDED", [_rel("Blue/Apple", "/Apple"), _rel("Blue/Apple", "Apple")]),
+    ("Item/Zork/Blah", "TAG_EXTENDED", [_rel("Item/Zork/Blah", "/Zork/Blah"), _rel("Item/Zork/Blah", "Zork/Blah")]),
+]
+
+
 def pool(w):
     out = []
     for a in ATOMS:
@@ -312,6 +337,20 @@ def run_string(w, text, count=True):
             for i in res[warn]:
                 check_issue(w, i, dict(inp, handler="HED_STRING context", warnings=warn), "string", text=text,
                             d10_path=True)
+        # the fragment selected is the offending part of the tag (hand-written expectations for some atoms)
+        for atom, code, rels in EXPECT:
+            if text.count(atom) != 1:
+                continue
+            pos = text.find(atom)
+            hits = [i for i in res[True] if i["code"] == code and "char_index" in i
+                    and pos <= i["char_index"] and i["char_index_end"] <= pos + len(atom)]
+            if text == atom and not ph:
+                w.check(bool(hits), "C12.offsets.selects_offending_part", inp, [brief(i) for i in res[True]][:3],
+                        "%s with offsets inside '%s'" % (code, atom))
+            for i in hits:
+                got = (i["char_index"] - pos, i["char_index_end"] - pos)
+                w.check(got in rels, "C12.offsets.selects_offending_part", inp, brief(i),
+                        {"atom": atom, "at": pos, "allowed spans relative to the atom": rels})
         # the same verdict with and without a context handler
         w.check([(i["code"], i["severity"]) for i in res["plain"]] == [(i["code"], i["severity"]) for i in res[True]],
                 "C12.entry.handler_does_not_change_codes", inp, [i["code"] for i in res["plain"]],
